@@ -173,6 +173,9 @@ pub fn continue_in_loops_code(model: &mut Model, code: &str) -> bool {
 pub fn census_hypothesis(model: &mut Model, model_name: &str, sexp0: &str) -> bool {
     if model_name.starts_with("remove_continue") {
         continue_in_loops(model, sexp0)
+    } else if model_name.starts_with("remove_if_expression") {
+        // the decidable fuel hypothesis of census_zero_remove_if_expression (never false in practice)
+        model.ask(&format!("c06.fuelok {}", sexp0)) == "true"
     } else {
         true
     }
